@@ -24,6 +24,11 @@ theorem all_order_sources_are_ordered :
     inputsOrder = .dictOrdered ∧ couplingOrder = .dictOrdered ∧ sccOrder = .dictOrdered ∧
     fpiCouplingOrder = .dictOrdered ∧ sampleLoopOverInputs = true := by decide
 
+/-- the candidate scan of `System.refine` (components in listing order, candidates in the order of an `IndexSet` of integer tuples —
+    integer hashes are not randomised —, results scanned in that same order with a strict comparison): ties between equal
+    indicators are broken by position, never by a string hash -/
+theorem refine_scan_order_is_hash_independent : refineScanOrder = .dictOrdered := by decide
+
 /-- with ordered sources the variables, and hence the random stream each receives, do not depend on the permutation -/
 theorem samples_independent_of_hash_permutation (π π' : List Nat) (xs : List String) (chunks : List Nat) :
     assignStreams (resolve inputsOrder π xs) chunks = assignStreams (resolve inputsOrder π' xs) chunks ∧
